@@ -77,13 +77,18 @@ def extract(repo):
          "self.multi_selection": ("multi", "Bool")}
     body = R.fn_body(src, "append_sorted_items")[0]
     i = body.find("let current_run_num")
-    m = re.search(r"if ([^{]*?) \{\s*self\.pre_select\(&items\);\s*\}\s*self\.items\.append\(items\);(.*?)let height = self\.known_height\(\);",
-                  body, re.S)
+    m = re.search(r"if ([^{]*?) \{\s*self\.pre_select\(&items\);\s*\}\s*self\.items\.append\(items\);(.*?)\n\s*if ", body, re.S)
     if i < 0 or not m or m.start() < i:
-        raise R.Unsupported("append_sorted_items: not `let current_run_num ..; if c { pre_select }; append; ..; let height`")
+        raise R.Unsupported("append_sorted_items: not `let current_run_num ..; if c { pre_select }; append; ..; if ..`")
     head = R.translate(body[i:m.start()], A, result="(latest, wm)")
+    # what follows the append up to the first `if` of the cursor fix-up: the watermark update (the height is C09's business)
+    tail_src = re.sub(r"//[^\n]*", "", m.group(2)).replace("let height = self.known_height();", "")
+    if "self.pre_selected_watermark" not in tail_src:
+        if "self.pre_selected_watermark" in body[m.end(2):]:
+            raise R.Unsupported("append_sorted_items: the watermark is updated inside or after the cursor fix-up")
+        tail_src = "self.pre_selected_watermark = self.pre_selected_watermark;"     # never updated after the append: read as such
     cond = R.translate(m.group(1), A)
-    tail = R.translate(re.sub(r"//[^\n]*", "", m.group(2)), A, result="wm")
+    tail = R.translate(tail_src, A, result="wm")
     # pre_select
     b = norm(R.fn_body(src, "pre_select")[0])
     b = re.sub(r"debug!\([^;]*\); ?", "", b)
